@@ -8,7 +8,52 @@ import subprocess
 ROOT = os.path.dirname(os.path.dirname(os.path.abspath(__file__)))
 
 # id -> (engine, level, technique, level text, level note, design ref)
+HIST_NOTE = (
+    "Trusted: the `verif` facade forwards to the real code (reviewable, add-only); CometBFT / IBC "
+    "counterparties are modelled (DESIGN.md section 7); proptest. Not proved: absence of failures "
+    "outside the generated histories."
+)
+
 CLAIMED = {
+    "C01": (
+        "vseq", "exploration",
+        "stateful property-based testing: generated chain histories interpreted against the real App, "
+        "arbitrary-precision reference model of every balance / escrow / fee-pot change per transaction",
+        "No counter-example in hundreds (quick) to tens of thousands (thorough) of generated histories "
+        "(genesis with balances up to u128::MAX and arbitrary fee schedules, 1-6 blocks, transactions of "
+        "all value-moving action types, fee-schedule changes, IBC packets). Every transaction's effect on "
+        "every account, escrow and the fee pot is compared with an independent model; fee events with "
+        "base + multiplier x size; pot routing at block end.",
+        HIST_NOTE, "DESIGN.md 4/C01",
+    ),
+    "C02": (
+        "vseq", "exploration",
+        "stateful property-based testing: generated histories with wrong / former authorities, "
+        "observational invariant over the full state diff of every successful transaction",
+        "No counter-example in generated histories biased to privileged actions with 40% explicitly "
+        "chosen (wrong, former, foreign) signers: every balance decrease of a non-signer and every "
+        "changed key of a privileged family is justified by the authority stored before the transaction.",
+        HIST_NOTE, "DESIGN.md 4/C02",
+    ),
+    "C03": (
+        "vseq", "exploration",
+        "stateful property-based testing: generated histories with stale / gapped nonces, byte-identical "
+        "replays and multi-action bundles failing at every index; full-state-dump equality oracle",
+        "No counter-example in generated histories: a successful transaction raises exactly the signer's "
+        "nonce by one and never succeeds twice; a failed one leaves the complete state dump (verifiable, "
+        "non-verifiable, fee pot, cached deposits) byte-identical.",
+        HIST_NOTE, "DESIGN.md 4/C03",
+    ),
+    "C04": (
+        "vseq", "exploration",
+        "stateful property-based testing: generated bridge histories (locks, unlocks, bridge transfers, "
+        "ICS-20 in/out, administration) with a model of honoured withdrawal events and a backing invariant",
+        "No counter-example in generated histories: every deposit registered for a block names a bridge "
+        "with matching rollup and asset and is covered by a credit in the same transaction or packet; "
+        "failed transactions and packets without effect register none; a (bridge, event id) pair is "
+        "honoured at most once whichever action carries it. Found and led to the repair of defect 998b4ca.",
+        HIST_NOTE, "DESIGN.md 4/C04",
+    ),
     "C08": (
         "vlight",
         "exploration",
@@ -23,6 +68,66 @@ CLAIMED = {
         "Trusted: the harness' RFC 6962 transcription, SHA-256 collision resistance, proptest. "
         "Not proved: absence of failures outside the generated sizes.",
         "DESIGN.md 4/C08",
+    ),
+    "C09": (
+        "vconductor", "exploration",
+        "property-based testing: generated validator sets, commits (signature subsets around the 2/3 "
+        "boundary, duplicates, forgeries) and Celestia blobs through the real decode/verify/reconstruct "
+        "pipeline; reference-predicate oracle",
+        "No counter-example in 80 000 (quick) generated Celestia heights: a reconstructed block implies "
+        "matching chain id and block hash and strictly more than 2/3 of the voting power of distinct "
+        "validators with valid signatures; rollup data is attached only with a verifying proof; nothing "
+        "panics. Found and led to the repair of three defects (927ccd7, 7862220, b75b105).",
+        "Trusted: the CometBFT RPC seam (commit / validators responses are built by the harness from real "
+        "tendermint types and ed25519 signatures); proptest.", "DESIGN.md 4/C09",
+    ),
+    "C10": (
+        "vconductor", "exploration",
+        "stateful property-based testing: generated soft/firm arrival schedules stepped through the real "
+        "executor state machine against an in-process contract-checking fake rollup; history invariant "
+        "over the RPC log",
+        "No counter-example in 30 000 (quick) generated schedules over all commit-level modes and session "
+        "offsets: exactly one ExecuteBlock per height, in order, on the right parent; commitments monotone, "
+        "firm <= soft, firm names an executed block; stale / duplicate / skip-ahead deliveries never execute.",
+        "Trusted: the fake rollup (harness) and the step function mirroring the executor loop's biased "
+        "select through the real execute_soft / execute_firm; interleavings inside one call are not "
+        "enumerated.", "DESIGN.md 4/C10",
+    ),
+    "C14": (
+        "vseq", "exploration",
+        "stateful property-based testing: generated validator-update histories across the Aspen upgrade, "
+        "reference model of CometBFT's validator-set update rules",
+        "Generated histories of validator add/update/remove sequences (several per block, repeated keys) "
+        "folded into a CometBFT model and compared with the stored set after every commit. Two genuine "
+        "defects are recorded as known findings (see known_findings.json); no other counter-example.",
+        HIST_NOTE, "DESIGN.md 4/C14",
+    ),
+    "C16": (
+        "vcomposer", "exploration",
+        "stateful property-based testing: generated push/pop sequences against the real BundleFactory "
+        "with a reference queue model and order / size / refusal invariants",
+        "No counter-example in 20 000 (quick) generated push / pop-finished / pop-now sequences with sizes "
+        "around the limit and queue capacities 0..4.",
+        "Trusted: the facade forwards to the real BundleFactory; the size limit is the one the code "
+        "documents (sum of encoded action sizes).", "DESIGN.md 4/C16",
+    ),
+    "C17": (
+        "vconductor", "exploration",
+        "structure-aware mutation fuzzing (proptest): protobuf-field-level mutations of honest Celestia "
+        "blobs through the conductor's decode and reconstruct path; no-panic and round-trip oracles",
+        "No panic and no inconsistent accepted value in 150 000 (quick) mutated blob sets (conductor "
+        "decoders). Transaction and sequencer-block decoders are being added (see DESIGN.md).",
+        "Trusted: proptest; only the conductor wire path is covered by this check so far.",
+        "DESIGN.md 4/C17",
+    ),
+    "C18": (
+        "vseq", "exploration",
+        "stateful property-based testing: generated ICS-20 histories (withdrawals, receives, acks, "
+        "timeouts) with an escrow ledger model and a reference predicate for unappliable packets",
+        "No counter-example in generated histories over 2 channels x 4 assets: stored escrow equals "
+        "sent - returned - refunded after every operation, no release beyond escrow, unappliable packets "
+        "are acknowledged and change nothing. Found and led to the repair of defect 998b4ca.",
+        HIST_NOTE, "DESIGN.md 4/C18",
     ),
 }
 
@@ -104,11 +209,23 @@ def main():
                 "App / Mempool through the `verif` facade",
             },
             {
-                "name": "voff",
-                "path": "harness/voff",
-                "serves_properties": ["C07", "C09", "C10", "C11", "C12", "C16", "C17"],
-                "kind_free_text": "proptest-driven checks of conductor, relayer and composer "
-                "through their `verif` facades and in-process fakes",
+                "name": "vconductor",
+                "path": "harness/vconductor",
+                "serves_properties": ["C09", "C10", "C17"],
+                "kind_free_text": "proptest-driven checks of the conductor through its `verif` facade "
+                "and an in-process fake rollup",
+            },
+            {
+                "name": "vrelayer",
+                "path": "harness/vrelayer",
+                "serves_properties": ["C07", "C11", "C12"],
+                "kind_free_text": "proptest-driven checks / fault enumeration of the sequencer-relayer",
+            },
+            {
+                "name": "vcomposer",
+                "path": "harness/vcomposer",
+                "serves_properties": ["C16"],
+                "kind_free_text": "proptest-driven check of the composer's bundle factory",
             },
         ],
         "checks": checks,
